@@ -138,6 +138,9 @@ func fuzzHandler(f *testing.F, cmd string) {
 	for _, s := range fuzzSeeds(e, cmd) {
 		f.Add(byte(0), s)
 		f.Add(byte(1), s)
+		if cmd == "tx" {
+			f.Add(byte(16), s)
+		}
 		if cmd == "addr" {
 			f.Add(byte(16), s)
 			f.Add(byte(48), s)
@@ -152,6 +155,9 @@ func fuzzHandler(f *testing.F, cmd string) {
 			return
 		}
 		cs := seqCase{Incoming: true, Handshake: flags&4 == 0, Authorized: flags&1 != 0 && flags&4 == 0, Syncing: flags&2 != 0}
+		if cmd == "tx" && flags&16 != 0 {
+			cs.Queues = "nettxs_full" // bit4 (tx): the queue to the main thread is full
+		}
 		if cmd == "addr" && flags&16 != 0 {
 			cs.Peers = "full" // bit4: the peers database is at its limit
 			if flags&32 != 0 {
